@@ -417,7 +417,7 @@ pub fn on_pause_end() {
 
     let mut verified = 0u64;
     let mut by_ref: HashMap<usize, u64> = HashMap::with_capacity(live.len());
-    let vo = cfg!(any(feature = "var_a", feature = "var_b"));
+    let vo = cfg!(feature = "f_vo");
     let mut remset_verified = 0u64;
     for id in live.iter() {
         let Some(o) = sh.objs.get(id) else {
@@ -434,7 +434,7 @@ pub fn on_pause_end() {
             if let Some(other) = by_ref.insert(o.addr, *id) {
                 violation("C01", "identity:two-ids-one-address", format!("ids {} and {} are both at {:#x}", other, id, o.addr));
             }
-            #[cfg(any(feature = "var_a", feature = "var_b"))]
+            #[cfg(feature = "f_vo")]
             if vo {
                 let a = unsafe { Address::from_usize(o.addr) };
                 match memory_manager::is_mmtk_object(a) {
@@ -665,7 +665,7 @@ fn check_exact(sh: &mut Shadow, pre: &PreGc, live: &HashSet<u64>, dead_now: &[u6
 
     // C07: enumerate_objects == survivors
     let mut n = 0u64;
-    #[cfg(any(feature = "var_a", feature = "var_b"))]
+    #[cfg(feature = "f_vo")]
     {
         let mut expected: HashMap<usize, u64> = HashMap::new();
         for id in live.iter() {
@@ -793,7 +793,7 @@ fn check_satb(sh: &mut Shadow, info: &mmtk::verif::GcInfo, live: &HashSet<u64>) 
                     unreachable_now += 1;
                     if verify_object(sh, o, "satb-snapshot", "C12") {
                         checked += 1;
-                        #[cfg(any(feature = "var_a", feature = "var_b"))]
+                        #[cfg(feature = "f_vo")]
                         {
                             let a = unsafe { Address::from_usize(o.addr) };
                             if memory_manager::is_mmtk_object(a).is_none() {
